@@ -120,11 +120,14 @@ structure V where
   obsCb : List String
   sawK : Bool
   tags : List String
+  /-- first model/implementation disagreement on a poll's streams or callbacks that does not
+      violate the specification; the replay goes on (a later poll may violate it) -/
+  pendingDiff : Option String
 
 def V.init : V :=
   { w := W.init true, r := RState.init Bytes, rNext := RState.init Bytes, specLast := none, specNext := none,
     expAtt := [], expCb := [], specCb := [], phase := .idle, nPolls := 0, obsAtt := [], obsCb := [],
-    sawK := false, tags := [] }
+    sawK := false, tags := [], pendingDiff := none }
 
 def defaultPlan (plans : List Plan) : Plan :=
   match plans.getLast? with
@@ -209,9 +212,10 @@ def onToken (os : Bool) (tab : List CEntry) (plans : List Plan) (v : V) (t : Str
        else viol s!"wrong-update poll={v.nPolls - 1} expected={join specUpd} got={join obsUpd}")
     else if v.obsCb.length > 1 then viol s!"several-callbacks poll={v.nPolls - 1} got={join v.obsCb}"
     else if v.specCb ≠ v.expCb then .error s!"BAD spec-and-model-disagree spec={join v.specCb} model={join v.expCb}"
-    else if v.obsCb ≠ v.expCb ∨ v.obsAtt ≠ v.expAtt then
-      diff s!"poll={v.nPolls - 1}:streams={join v.expAtt}:callbacks={join v.expCb}:got-streams={join v.obsAtt}:got-callbacks={join v.obsCb}"
     else
+      let v := if (v.obsCb ≠ v.expCb ∨ v.obsAtt ≠ v.expAtt) ∧ v.pendingDiff.isNone then
+          { v with pendingDiff := some s!"DIFF model=poll={v.nPolls - 1}:streams={join v.expAtt}:callbacks={join v.expCb}:got-streams={join v.obsAtt}:got-callbacks={join v.obsCb}" }
+        else v
       match (step v.w (.pollEnd (!v.obsCb.isEmpty))).bind (fun w => acts w plan 2) with
       | none => diff "poll-end-not-enabled"
       | some w' =>
@@ -270,6 +274,15 @@ def replay (os : Bool) (tab : List CEntry) (plans : List Plan) : V → List Stri
     | .ok v' => replay os tab plans v' ts
     | .error e => .error e
 
+/-- the poll-level disagreement recorded before a later (LTS-level) DIFF stopped the replay, if any -/
+def firstPollDiff (os : Bool) (tab : List CEntry) (plans : List Plan) (out : List String) : Option String :=
+  let rec go (v : V) : List String → Option String
+    | [] => v.pendingDiff
+    | t :: ts => match onToken os tab plans v t with
+      | .ok v' => go v' ts
+      | .error _ => v.pendingDiff
+  go V.init out
+
 /-- independent of the replay: no callback token after `c` -/
 def callbackAfterClose : List String → Bool
   | [] => false
@@ -287,9 +300,10 @@ def handleHist (inp out : List String) : String :=
       let res := replay os tab plans V.init out
       if callbackAfterClose out then "VIOL callback-after-Close-returned" else
       match res with
-      | .error e => e
+      | .error e => if e.startsWith "VIOL" then e else (match firstPollDiff os tab plans out with | some d => d | none => e)
       | .ok v =>
-        if v.w.ppc ≠ .exited then "DIFF model=log-incomplete"
+        if let some d := v.pendingDiff then d
+        else if v.w.ppc ≠ .exited then "DIFF model=log-incomplete"
         else
           let nt := if v.nPolls ≥ 2 then " nt" else ""
           s!"OK{nt} b=polls{min v.nPolls 9}" ++ String.join (v.tags.map (fun t => " " ++ t))
